@@ -83,8 +83,10 @@ def run(ctx):
     if len(fl) == 1 and fl[0]["result"] is not None and fl[0]["result"].op == "filtered":
         pred = fl[0]["result"].args[1]
         ith = fidx(ctx, AS, "threshold")
-        ok3 = pred.op == "ge" and pred.args[0].op == "len" and Q.contains(pred.args[0], lambda t: t.op == "elem") and \
-            pred.args[1].op == "cast" and Q.path_of(pred.args[1].args[0]) == "self.%d" % ith and pred.args[1].args[2] == "usize"
+        from .common import pred_means
+        lens = Q.find_all(pred, lambda t: t.op == "len" and Q.contains(t.args[0], lambda z: z.op == "elem"))
+        thr = Q.find_all(pred, lambda t: t.op == "cast" and Q.path_of(t.args[0]) == "self.%d" % ith and t.args[2] == "usize")
+        ok3 = len(lens) == 1 and len(thr) >= 1 and pred_means(pred, lens[0], "ge", thr[0])
         det = S(pred, 5)
         src = fl[0]["argv"][0]
         ok3 = ok3 and Q.contains(src, lambda t: t.op == "map_values")
